@@ -96,8 +96,26 @@ pub struct ContentSpec {
     pub seed: u64,
 }
 
+/// kernel pseudo files whose stat() size (0) is not the number of bytes a read returns and whose
+/// content does not change while the process runs; used as SOURCE paths (content kind 7)
+pub const PSEUDO_SOURCES: [&str; 3] = ["/proc/version", "/proc/filesystems", "/proc/sys/kernel/ostype"];
+
 impl ContentSpec {
+    /// for kind 7: the pseudo file to use as source, if it is readable and non-empty here
+    pub fn pseudo_source(&self) -> Option<(&'static str, Vec<u8>)> {
+        if self.kind != 7 {
+            return None;
+        }
+        let p = PSEUDO_SOURCES[(self.seed % PSEUDO_SOURCES.len() as u64) as usize];
+        match (std::fs::read(p), std::fs::metadata(p)) {
+            (Ok(c), Ok(m)) if !c.is_empty() && m.len() != c.len() as u64 => Some((p, c)),
+            _ => None,
+        }
+    }
     pub fn bytes(&self) -> Vec<u8> {
+        if let Some((_, c)) = self.pseudo_source() {
+            return c;
+        }
         let n = self.size as usize;
         match self.kind {
             0 => vec![0u8; n],
@@ -380,18 +398,27 @@ pub fn stage_file(
     content: &[u8],
 ) -> Result<(std::path::PathBuf, rpm::FileOptions), rpm::Error> {
     use std::os::unix::fs::PermissionsExt;
-    let src = dir.join(format!("src{}", idx));
-    std::fs::write(&src, content)?;
-    if let ModeSpec::Inherit(p) = f.mode {
-        std::fs::set_permissions(&src, std::fs::Permissions::from_mode((p & 0o7777) as u32))?;
+    let mut src = dir.join(format!("src{}", idx));
+    let pseudo = f.content.pseudo_source().map(|(p, _)| p);
+    if let Some(p) = pseudo {
+        // the source is a kernel pseudo file: its mode and times are what they are
+        src = std::path::PathBuf::from(p);
+    } else {
+        std::fs::write(&src, content)?;
     }
-    let fh = std::fs::OpenOptions::new().write(true).open(&src).or_else(|_| {
-        // unreadable/unwritable permission bits: we are root in the sandbox, open still works;
-        // fall back to read-only open for setting times
-        std::fs::File::open(&src)
-    })?;
-    fh.set_modified(std::time::UNIX_EPOCH + std::time::Duration::from_secs(f.mtime as u64))?;
-    drop(fh);
+    let _ = pseudo;
+    if pseudo.is_none() {
+        if let ModeSpec::Inherit(p) = f.mode {
+            std::fs::set_permissions(&src, std::fs::Permissions::from_mode((p & 0o7777) as u32))?;
+        }
+        let fh = std::fs::OpenOptions::new().write(true).open(&src).or_else(|_| {
+            // unreadable/unwritable permission bits: we are root in the sandbox, open still works;
+            // fall back to read-only open for setting times
+            std::fs::File::open(&src)
+        })?;
+        fh.set_modified(std::time::UNIX_EPOCH + std::time::Duration::from_secs(f.mtime as u64))?;
+        drop(fh);
+    }
     let mut o = rpm::FileOptions::new(f.dest());
     match (f.mode.clone(), f.mode_as_int) {
         (ModeSpec::Inherit(_), _) => {}
